@@ -16,7 +16,7 @@ import subprocess
 from harness import common
 from harness.common import Model, canon, impl_result
 
-FACTS = ()
+FACTS = ("pin_c20",)
 
 RULE = ("exhaustive enumeration of key-sequence pairs over a small universe (distinct and "
         "repeating), keys rendered as str / tuple / mixed; plus seeded random longer pairs; "
